@@ -655,6 +655,11 @@ func c31Run(arg string) explore.RunFn {
 		x.Run()
 		x.SetExploring(false)
 		o.Viol = append(o.Viol, execViolations(x)...)
+		if zzvrt.RaceMode {
+			// race pass (-race worker binary): an unsynchronised access to index memory in this
+			// schedule, e.g. a query iterating a map that an update is writing
+			o.Viol = append(o.Viol, raceViolations(o.Counters)...)
+		}
 		final := clock
 		// final reads: the whole observable content, sequentially
 		for _, op := range c31Finals {
@@ -762,5 +767,24 @@ func init() {
 			}
 		}
 		a.requireCounters("overlapping_call_pairs", "read_overlapping_update", "cross_checked_by_permutation_enumeration")
+		// race pass: the query-vs-update programs again in the -race binary (see C33 for the
+		// mechanism): "no serial order explains it" has a sibling that a sequentially consistent
+		// scheduler cannot show - a query touching index memory while an update writes it
+		if done, ok := raceModeBegin(c); ok {
+			cc := *c
+			cc.Workers = 6
+			rb := []explore.Bounds{{Preempt: 0, Env: 1}, {Preempt: 1, Env: 1}}
+			per := 25 * time.Second
+			if !c.Quick() {
+				rb = append(rb, explore.Bounds{Preempt: 2, Env: 1})
+				per = 120 * time.Second
+			}
+			explore.IterateDFS(&cc, "c31", "2x1:full:r", rb, per)
+			if !c.Quick() {
+				explore.IterateDFS(&cc, "c31", "deep/2x1:all:r", rb, per)
+			}
+			done()
+			c.Rep.Assumption("race pass: happens-before race detector on the same programs (2 threads x 1 op, query vs update), hand-offs invisible to the detector; a report counts only if both access sites are in mochi source files")
+		}
 	})
 }
